@@ -57,7 +57,7 @@ pub fn vx_string_ends_with_char(s: &String, c: char) -> (r: bool)
 
 /// str::trim (N11): some substring; nothing else is used
 #[verifier::external_body]
-pub fn vx_str_trim(s: &String) -> (r: &str) {
+pub fn vx_string_trim(s: &String) -> (r: &str) {
     s.trim()
 }
 
